@@ -267,8 +267,17 @@ pub proof fn lemma_add_ng_pushed(st0: Seq<Vec<NoGood>>, st1: Seq<Vec<NoGood>>, s
     requires store_wf(st0), wf_ng(ng), ng.act().len() == idx + 1, 0 <= idx < st0.len(), st1.len() == st0.len(), st2.len() == st0.len(),
         forall|b: int| 0 <= b < st0.len() ==> bucket_rel(#[trigger] st0[b]@, st1[b]@, ng, idx <= b),
         forall|b: int| 0 <= b < st0.len() && b != idx ==> (#[trigger] st2[b])@ == st1[b]@, st2[idx]@ == st1[idx]@.push(*ng),
-    ensures store_wf(st2), excl_add(st0, st2, ng)
+    ensures store_wf(st2), excl_add(st0, st2, ng), forall|k: nat| store_in(st0, k) && ng_in(ng, k) ==> #[trigger] store_in(st2, k)
 {
+    assert forall|k: nat| store_in(st0, k) && ng_in(ng, k) implies #[trigger] store_in(st2, k) by {
+        assert forall|b: int, j: int| 0 <= b < st2.len() && 0 <= j < st2[b]@.len() implies ng_in(&(#[trigger] st2[b]@[j]), k) by {
+            if b == idx && j == st1[idx]@.len() { } else {
+                assert(st2[b]@[j] == st1[b]@[j]);
+                assert(bucket_rel(st0[b]@, st1[b]@, ng, idx <= b));
+                if idx <= b { assert(st0[b]@.contains(st1[b]@[j])); let j0 = choose|j0: int| 0 <= j0 < st0[b]@.len() && st0[b]@[j0] == st1[b]@[j]; assert(ng_in(&st0[b]@[j0], k)); } else { assert(st1[b]@ == st0[b]@); assert(ng_in(&st0[b]@[j], k)); }
+            }
+        }
+    }
     lemma_store_wf_filtered(st0, st1, ng, idx);
     lemma_excl_filtered(st0, st1, ng, idx);
     lemma_excl_push(st1, st2, ng, idx);
@@ -280,6 +289,9 @@ pub proof fn lemma_add_ng_pushed(st0: Seq<Vec<NoGood>>, st1: Seq<Vec<NoGood>>, s
         assert((avoids_all(i, st1) && !ext_of(i, ng)) == (avoids_all(i, st0) && !ext_of(i, ng)));
     }
 }
+// every literal of the nogood / of every stored nogood is a position below k
+pub open spec fn ng_in(g: &NoGood, k: nat) -> bool { forall|x: u32| #[trigger] g.act().contains(x) ==> x < k }
+pub open spec fn store_in(st: Seq<Vec<NoGood>>, k: nat) -> bool { forall|b: int, j: int| 0 <= b < st.len() && 0 <= j < st[b]@.len() ==> ng_in(&(#[trigger] st[b]@[j]), k) }
 // ---- conclusion_closure: statements over term vectors (a NoGood value cannot be built in spec code, its bitmaps are opaque)
 pub open spec fn ext_tv(i: TA, tv: Seq<Term>) -> bool { forall|p: int| 0 <= p < tv.len() && !und(#[trigger] tv[p]) ==> i(p as u32) == (tv[p].0 == 1) }
 pub proof fn lemma_ext_tv(i: TA, n: &NoGood, tv: Seq<Term>)
